@@ -19,10 +19,17 @@ import (
 
 	"elaverif/harness/hx"
 
+	"github.com/elastos/Elastos.ELA/blockchain"
 	"github.com/elastos/Elastos.ELA/common"
 	"github.com/elastos/Elastos.ELA/common/config"
 	"github.com/elastos/Elastos.ELA/core/contract"
+	"github.com/elastos/Elastos.ELA/core/transaction"
+	"github.com/elastos/Elastos.ELA/core/types"
+	common2 "github.com/elastos/Elastos.ELA/core/types/common"
+	"github.com/elastos/Elastos.ELA/core/types/functions"
+	"github.com/elastos/Elastos.ELA/core/types/interfaces"
 	"github.com/elastos/Elastos.ELA/core/types/payload"
+	"github.com/elastos/Elastos.ELA/utils"
 	crstate "github.com/elastos/Elastos.ELA/cr/state"
 	"github.com/elastos/Elastos.ELA/crypto"
 	"github.com/elastos/Elastos.ELA/dpos/state"
@@ -88,8 +95,14 @@ func parse(t []string) parsed {
 	return p
 }
 
-func exec(t []string) string {
-	p := parse(t)
+type built struct {
+	a      *state.Arbiters
+	cfg    *config.Configuration
+	payTo  []common.Uint168
+	candTo []common.Uint168
+}
+
+func build(p parsed) built {
 	cfg := config.GetDefaultParams()
 	big := uint32(math.MaxUint32 / 2)
 	cfg.CRConfiguration.ChangeCommitteeNewCRHeight, cfg.CRConfiguration.CRClaimDPOSNodeStartHeight, cfg.CRConfiguration.CRCommitteeStartHeight = big, big, big
@@ -169,6 +182,16 @@ func exec(t []string) string {
 		a.CurrentCandidates = append(a.CurrentCandidates, m)
 		candTo = append(candTo, h)
 	}
+	return built{a, cfg, payTo, candTo}
+}
+
+func exec(t []string) string {
+	if t[0] == "book" {
+		return execBook(t)
+	}
+	p := parse(t)
+	bt := build(p)
+	a, cfg, payTo, candTo := bt.a, bt.cfg, bt.payTo, bt.candTo
 	rr, change, err := a.VerifDistributeDPOSReward(2000000, p.reward)
 	if err != nil {
 		return "err"
@@ -189,6 +212,102 @@ func exec(t []string) string {
 		b.WriteString(" " + get(h))
 	}
 	return b.String()
+}
+
+// book <era> <pow> <cfgCRC> <cfgNormal> <total> <na> (k v)* <nc> v* <voting> <acc0> <nsteps> (a|s|f fee)* <cbk> <cbdelta>
+//
+// the reward bookkeeping around distributeDPOSReward on the same synthetic Arbiters (pre-DPoSv2 era,
+// heights from 2000000): every step is one block whose transactions paid <fee>;
+//   a = ordinary block        -> the real accumulateReward
+//   s = regular round change  -> the real clearingDPOSReward(block, h, true)
+//   f = forced change         -> the real clearingDPOSReward(block, h, false) + forceChanged (what forceChange does)
+// <voting> = 1: the heights are at/after CRVotingStartHeight.  Afterwards the real
+// blockchain.CheckCoinbaseArbitratorsReward judges a coinbase that pays every entry of the current
+// round reward (entry <cbk> raised by <cbdelta>; cbk = -1: honest; cbk = -2: the last recipient is
+// replaced by a second payment to the first one).
+//   -> per step "a:<acc>" | "c:<acc> <change> <Σ round reward> <entries>" | "c:err", then "cb:<ok|err>"
+func execBook(t []string) string {
+	// reuse the dist parser: insert a dummy reward token
+	head := append([]string{"dist"}, t[1:5]...)
+	head = append(head, "0")
+	rest := t[5:]
+	p := parse(append(head, rest...))
+	// book layout: era pow cfgCRC cfgNormal total na (k v)* nc v* voting acc0 nsteps …
+	i := 7 + 2*len(p.kinds) + 1 + len(p.cvotes)
+	voting, acc0, nsteps := t[i], f64(t[i+1]), atoi(t[i+2])
+	i += 3
+	bt := build(p)
+	a, cfg := bt.a, bt.cfg
+	cfg.PublicDPOSHeight = 0
+	cfg.CRConfiguration.CRVotingStartHeight = math.MaxUint32
+	if voting == "1" {
+		cfg.CRConfiguration.CRVotingStartHeight = 0
+	}
+	a.DPoSV2ActiveHeight = math.MaxUint32
+	a.History = utils.NewHistory(40)
+	a.VerifSetAccumulativeReward(acc0)
+	var parts []string
+	h := uint32(2000000)
+	sumRR := func(rr map[common.Uint168]common.Fixed64) *big.Int {
+		s := new(big.Int)
+		for _, v := range rr {
+			s.Add(s, big.NewInt(int64(v)))
+		}
+		return s
+	}
+	for k := 0; k < nsteps; k++ {
+		kind, fee := t[i], f64(t[i+1])
+		i += 2
+		h++
+		feeTx := functions.CreateTransaction(0, common2.TransferAsset, 0, &payload.TransferAsset{}, nil, nil, nil, 0, nil)
+		feeTx.SetFee(fee)
+		blk := &types.Block{Header: common2.Header{Height: h}, Transactions: []interfaces.Transaction{feeTx}}
+		switch kind {
+		case "a":
+			a.VerifAccumulateReward(blk)
+			acc, _, _, _ := a.VerifRewardState()
+			parts = append(parts, fmt.Sprintf("a:%d", int64(acc)))
+		case "s", "f":
+			if err := a.VerifClearingDPOSReward(blk, kind == "s"); err != nil {
+				parts = append(parts, "c:err")
+				continue
+			}
+			acc, change, rr, _ := a.VerifRewardState()
+			parts = append(parts, fmt.Sprintf("c:%d %d %s %d", int64(acc), int64(change), sumRR(rr), len(rr)))
+		default:
+			panic("harness: book step " + kind)
+		}
+	}
+	cbk, cbdelta := atoi(t[i]), f64(t[i+1])
+	_, _, rr, _ := a.VerifRewardState()
+	// the entries of the round reward in a fixed order: destroy, CRC address, arbiters, candidates
+	var order []common.Uint168
+	seen := map[common.Uint168]bool{}
+	for _, hsh := range append(append([]common.Uint168{*cfg.DestroyELAProgramHash, *cfg.CRConfiguration.CRCProgramHash}, bt.payTo...), bt.candTo...) {
+		if _, ok := rr[hsh]; ok && !seen[hsh] {
+			seen[hsh] = true
+			order = append(order, hsh)
+		}
+	}
+	outs := []*common2.Output{{Value: 1}, {Value: 2}}
+	for j, hsh := range order {
+		v := rr[hsh]
+		if j == cbk {
+			v += cbdelta
+		}
+		if cbk == -2 && j == len(order)-1 && j > 0 { // the last recipient is dropped, the first one is paid twice
+			hsh, v = order[0], rr[order[0]]
+		}
+		outs = append(outs, &common2.Output{ProgramHash: hsh, Value: v})
+	}
+	cb := functions.CreateTransaction(0, common2.CoinBase, 0, &payload.CoinBase{}, nil, nil, outs, 0, nil)
+	blockchain.DefaultLedger = &blockchain.Ledger{Arbitrators: a}
+	res := "cb:ok"
+	if err := blockchain.CheckCoinbaseArbitratorsReward(cb); err != nil {
+		res = "cb:err"
+	}
+	parts = append(parts, res)
+	return strings.Join(parts, " ; ")
 }
 
 func mustPK(b []byte) *crypto.PublicKey {
@@ -214,6 +333,7 @@ func genVotes(r *hx.Rand) int64 {
 }
 
 func gen(g *hx.Gen) {
+	defer genBook(g)
 	r := g.R
 	n := g.N(5000, 200000)
 	for i := 0; i < n; i++ {
@@ -297,12 +417,127 @@ func gen(g *hx.Gen) {
 	}
 }
 
+func genBook(g *hx.Gen) {
+	r := g.R
+	n := g.N(1500, 60000)
+	for i := 0; i < n; i++ {
+		era := r.Intn(4)
+		cfgCRC := r.Pick(1, 2, 2, 12)
+		cfgNormal := r.Pick(1, 2, 3, 24)
+		na := cfgCRC + cfgNormal // full house: no empty seat (known finding C27-empty-seats-double-counted)
+		var sb strings.Builder
+		total := int64(0)
+		var arbs strings.Builder
+		for k := 0; k < na; k++ {
+			kind := "n"
+			if k < cfgCRC {
+				kind = []string{"c", "c", "d"}[r.Intn(3)]
+			}
+			v := int64(1+r.Intn(1000)) * int64(r.Pick(1, 100000000, 1000))
+			if kind == "n" {
+				total += v
+			}
+			fmt.Fprintf(&arbs, " %s %d", kind, v)
+		}
+		nc := r.Pick(0, 1, 3)
+		var cs strings.Builder
+		for k := 0; k < nc; k++ {
+			v := int64(1+r.Intn(1000)) * int64(r.Pick(1, 100000000))
+			total += v
+			fmt.Fprintf(&cs, " %d", v)
+		}
+		fmt.Fprintf(&sb, "book %d 0 %d %d %d %d%s %d%s %d %d", era, cfgCRC, cfgNormal, total, na, arbs.String(), nc, cs.String(),
+			r.Intn(2), int64(r.Pick(0, 0, 53272451, 1000000000)))
+		ns := 2 + r.Intn(5)
+		fmt.Fprintf(&sb, " %d", ns)
+		for k := 0; k < ns; k++ {
+			kind := []string{"a", "a", "a", "s", "f"}[r.Intn(5)]
+			if k == ns-1 && r.Chance(70) {
+				kind = []string{"s", "f"}[r.Intn(2)]
+			}
+			fmt.Fprintf(&sb, " %s %d", kind, int64(r.Pick(0, 0, 100, 123456789))*int64(1+r.Intn(3)))
+		}
+		switch r.Intn(10) {
+		case 0, 1, 2, 3:
+			sb.WriteString(" -1 0")
+		case 4:
+			sb.WriteString(" -2 0")
+		default:
+			fmt.Fprintf(&sb, " %d %d", r.Intn(na+nc+1), []int64{1, 100000000000, -1, 5}[r.Intn(4)])
+		}
+		g.Emit("%s", sb.String())
+	}
+}
+
+func blockReward35(fee int64) int64 {
+	return int64(common.Fixed64(math.Ceil(float64(common.Fixed64(fee)+config.GetDefaultParams().GetBlockReward(2000001)) * 0.35)))
+}
+
+// oracleBook: the bookkeeping around a distribution must not hand out more than it took in —
+// what a clearing pays (round reward + change) plus what it carries forward is at most what was
+// accumulated plus the clearing block's own reward — and the coinbase validator must accept exactly
+// the coinbase that pays every entry of the round reward once.
+func oracleBook(t []string, out string) *hx.Violation {
+	parts := strings.Split(out, " ; ")
+	// locate the steps in the op line
+	na := atoi(t[6])
+	i := 7 + 2*na
+	nc := atoi(t[i])
+	i += 1 + nc
+	acc, _ := strconv.ParseInt(t[i+1], 10, 64)
+	ns := atoi(t[i+2])
+	i += 3
+	entries := 0
+	for k := 0; k < ns && k < len(parts); k++ {
+		kind := t[i+2*k]
+		fee, _ := strconv.ParseInt(t[i+2*k+1], 10, 64)
+		b := blockReward35(fee)
+		f := strings.Fields(strings.TrimPrefix(strings.TrimPrefix(parts[k], "a:"), "c:"))
+		switch {
+		case kind == "a":
+			acc, _ = strconv.ParseInt(f[0], 10, 64)
+			entries = 0
+		case parts[k] == "c:err":
+		default:
+			acc2, _ := strconv.ParseInt(f[0], 10, 64)
+			change, _ := strconv.ParseInt(f[1], 10, 64)
+			paid, _ := new(big.Int).SetString(f[2], 10)
+			entries, _ = strconv.Atoi(f[3])
+			if change < 0 || acc2 < 0 {
+				return &hx.Violation{Kind: "negative-change", Detail: "clearing left a negative change / carried-forward reward: " + parts[k]}
+			}
+			out := new(big.Int).Add(paid, big.NewInt(change+acc2))
+			if out.Cmp(big.NewInt(acc+b)) > 0 {
+				return &hx.Violation{Kind: "clearing-hands-out-more-than-pool",
+					Detail: fmt.Sprintf("step %d (%s): paid %s + change %d + carried forward %d > accumulated %d + block reward %d", k+1, kind, paid, change, acc2, acc, b)}
+			}
+			acc = acc2
+		}
+	}
+	cbk := atoi(t[i+2*ns])
+	delta, _ := strconv.ParseInt(t[i+2*ns+1], 10, 64)
+	if parts[len(parts)-1] == "cb:ok" {
+		if cbk >= 0 && cbk < entries && delta != 0 {
+			return &hx.Violation{Kind: "coinbase-differs-from-round-reward",
+				Detail: fmt.Sprintf("coinbase paying reward entry %d %d sela off its share was accepted", cbk, delta)}
+		}
+		if cbk == -2 && entries >= 2 {
+			return &hx.Violation{Kind: "coinbase-duplicate-recipient",
+				Detail: "coinbase paying the first reward recipient twice and dropping the last one was accepted"}
+		}
+	}
+	return nil
+}
+
 // ---------------------------------------------------------------- oracle
 
 // A distribution that is reported as successful must not attribute more than the reward, must
 // carry a non-negative remainder, must not contain a negative payout, and payouts plus remainder
 // must not exceed the reward (the remainder goes to the miner on top of the payouts).
 func oracle(t []string, out string) *hx.Violation {
+	if t[0] == "book" {
+		return oracleBook(t, out)
+	}
 	if !strings.HasPrefix(out, "ok ") {
 		return nil
 	}
@@ -371,11 +606,26 @@ func oracle(t []string, out string) *hx.Violation {
 	return nil
 }
 
-func nontrivial(t []string, out string) bool { return strings.HasPrefix(out, "ok ") && len(t) > 10 }
+func nontrivial(t []string, out string) bool {
+	if t[0] == "book" {
+		return strings.Contains(out, "c:") && !strings.Contains(out, "c:err")
+	}
+	return strings.HasPrefix(out, "ok ") && len(t) > 10
+}
 
 func bucket(t []string, out string) string {
+	if t[0] == "book" {
+		return "book/era" + t[1] + "/" + out[strings.LastIndex(out, "cb:"):]
+	}
 	f := strings.Fields(out)
 	return "dist/era" + t[1] + "/" + f[0]
+}
+
+func init() {
+	functions.GetTransactionByTxType = transaction.GetTransaction
+	functions.GetTransactionByBytes = transaction.GetTransactionByBytes
+	functions.CreateTransaction = transaction.CreateTransaction
+	functions.GetTransactionParameters = transaction.GetTransactionparameters
 }
 
 func main() {
